@@ -268,4 +268,20 @@ theorem breakOn_target (p r : Bytes) :
     have : encPath p ++ 63 :: q = encPath p ++ [63] ++ q := by simp
     rw [this, HB.breakOn_found (c := 63) (d := []) q hq]
 
+/-- the same, as a case distinction on the search result -/
+theorem breakOn_target_cases (p r : Bytes) :
+    (breakOn [63] (target p r) = none ∧ target p r = encPath p ∧ upstreamQuery r = []) ∨
+    ∃ q, breakOn [63] (target p r) = some (encPath p, q) ∧ upstreamQuery r = 63 :: q := by
+  have hq : (63 : UInt8) ∉ encPath p :=
+    not_mem_encPath p (by decide) (by decide) (by decide) (by decide)
+  rcases upstreamQuery_cases r with e | ⟨q, e2⟩
+  · left
+    rw [target, e, List.append_nil]
+    exact ⟨HB.breakOn_eq_none_of_not_mem hq, rfl, rfl⟩
+  · right
+    refine ⟨q, ?_, e2⟩
+    rw [target, e2]
+    have : encPath p ++ 63 :: q = encPath p ++ [63] ++ q := by simp
+    rw [this, HB.breakOn_found (c := 63) (d := []) q hq]
+
 end Qhttp.ProxyL
